@@ -78,7 +78,7 @@ impl ModelGen {
                 0 => { let lo = r.range(-3, 1) as i32; VariableType::IntegerRange(lo, lo + r.range(0, 5) as i32) }
                 1 => { let lo = r.range(-3, 1) as f64 * 0.5; VariableType::Real(lo, lo + r.range(0, 8) as f64 * 0.5) }
                 2 => VariableType::Real(f64::NEG_INFINITY, f64::INFINITY),
-                3 => match r.below(3) { 0 => VariableType::Real(f64::NEG_INFINITY, r.range(-2, 4) as f64), 1 => VariableType::Real(r.range(-4, 2) as f64, f64::INFINITY), _ => VariableType::NonNegativeReal(0.0, f64::INFINITY) },
+                3 => match r.below(3) { 0 => VariableType::Real(f64::NEG_INFINITY, r.range(-2, 4) as f64), 1 => VariableType::Real(r.range(-4, 2) as f64, f64::INFINITY), _ => if r.chance(1, 2) { VariableType::NonNegativeReal(0.0, f64::INFINITY) } else { VariableType::NonNegativeReal(r.range(1, 4) as f64 * 0.5, f64::INFINITY) } },
                 4 => VariableType::NonNegativeReal(0.0, r.range(0, 6) as f64),
                 5 => VariableType::NonNegativeReal(r.range(0, 2) as f64 * 0.5, 3.0 + r.range(0, 3) as f64),
                 _ => VariableType::Boolean,
